@@ -84,14 +84,14 @@ def source(prog):
 
 
 def step_limit(prog):
-    """Statements run while currentTime < step_limit.  Behaviours are not resumed once currentTime reaches
+    """(spec evaluator only; the model has its own step_limit in coq/C19/Choose.v)  Statements run while currentTime < step_limit.  Behaviours are not resumed once currentTime reaches
     maxSteps; compose blocks are stepped BEFORE the simulator's time-limit test (Simulation._run), so the code
     of a compose block still runs (up to its next `wait`) at currentTime == maxSteps."""
     return prog["maxSteps"] + (1 if prog.get("form", "behavior") == "compose" else 0)
 
 
 def driver_line(prog):
-    t = ["RUN", str(step_limit(prog)), str(len(prog["behaviors"]))]
+    t = ["RUN", prog.get("form", "behavior"), str(prog["maxSteps"]), str(len(prog["behaviors"]))]
     for b in prog["behaviors"]:
         t += [str(x) for x in b["pre"]]
         t.append(str(len(b["body"])))
